@@ -68,8 +68,9 @@ def _definitions(clean):
     return defs
 
 
-def _cut(gen_c, jdf, cls, out):
-    """Mechanical cut of the generated unit: prelude (everything before the first make_key function) + the counting part of
+def _cut(gen_c, jdf, cls, out, extra=()):
+    """(extra: names of further generated functions cut whole, with their generated callees -- used by spec/C22.)
+    Mechanical cut of the generated unit: prelude (everything before the first make_key function) + the counting part of
     <jdf>_<CLS>_internal_init (up to and including the block that adds nb_tasks to initial_number_tasks) + the whole
     __jdf2c_startup_<CLS> + every generated function these two call (transitively) + one-line definitions of the task-class
     objects carrying only their task_class_id."""
@@ -98,6 +99,14 @@ def _cut(gen_c, jdf, cls, out):
     want = []
     todo = [(init, clean[b:stop]), (start, clean[defs[start][1]:defs[start][2]])]
     seen = {init, start}
+    for fn in extra:
+        fn = fn.replace("<jdf>", jdf).replace("<CLS>", cls)
+        if not defs.get(fn):
+            raise vlib.Undecided("cut: definition of %s not found exactly once" % fn)
+        if fn not in seen:
+            seen.add(fn)
+            want.append(fn)
+            todo.append((fn, clean[defs[fn][1]:defs[fn][2]]))
     while todo:
         _, body = todo.pop()
         for w in set(re.findall(r"\b([A-Za-z_]\w*)\s*\(", body)):
@@ -119,10 +128,13 @@ def _cut(gen_c, jdf, cls, out):
     open(out, "w").write("".join(parts))
 
 
-def _generate():
-    """Build ptgpp from REPO's sources, translate the corpus, cut; returns (dir, {corpus key: cut file})."""
-    if "cuts" in _gen_cache:
-        return _gen_cache["cuts"]
+def _generate(corpus=None, cache_key="cuts", prefix="c01"):
+    """Build ptgpp from REPO's sources, translate the corpus, cut; returns (dir, {corpus key: cut file}).
+    corpus entries: (key, jdf, class, case[, path of the .jdf (default spec/C01/jdf/<jdf>.jdf)[, extra functions to cut]])."""
+    if corpus is None:
+        corpus = CORPUS
+    if cache_key in _gen_cache:
+        return _gen_cache[cache_key]
     R = vlib.REPO
     B = vlib.build_dir()
     if B is None:
@@ -139,18 +151,21 @@ def _generate():
     if r.returncode != 0:
         raise vlib.Undecided("building ptgpp from %s failed: %s" % (R, r.stderr[-500:]))
     cuts = {}
-    for key, jdf, cls, case in CORPUS:
-        name = "c01" + jdf
+    for ent in corpus:
+        key, jdf, cls, case = ent[:4]
+        jdf_path = ent[4] if len(ent) > 4 and ent[4] else os.path.join(HERE, "jdf", jdf + ".jdf")
+        extra = ent[5] if len(ent) > 5 else ()
+        name = prefix + jdf
         if not os.path.exists(os.path.join(d, name + ".c")):
-            r = subprocess.run([os.path.join(d, "ptgpp"), "-E", "-i", os.path.join(HERE, "jdf", jdf + ".jdf"), "-o", name, "-f", name],
+            r = subprocess.run([os.path.join(d, "ptgpp"), "-E", "-i", jdf_path, "-o", name, "-f", name],
                                cwd=d, capture_output=True, text=True, timeout=120)
             if r.returncode != 0 or not os.path.exists(os.path.join(d, name + ".c")):
                 raise vlib.Undecided("ptgpp failed on %s.jdf: %s" % (jdf, (r.stdout + r.stderr)[-500:]))
         out = os.path.join(d, "%s_%s_cut.h" % (name, cls))
-        _cut(os.path.join(d, name + ".c"), name, cls, out)
+        _cut(os.path.join(d, name + ".c"), name, cls, out, extra)
         cuts[key] = out
-    _gen_cache["cuts"] = (d, cuts)
-    return _gen_cache["cuts"]
+    _gen_cache[cache_key] = (d, cuts)
+    return _gen_cache[cache_key]
 
 
 US_REL = {"parsec_lifo_pop.0": 2}
